@@ -63,9 +63,10 @@ type ctxMarkerKey struct{}
 func MarkerFromContext(ctx context.Context) any { return ctx.Value(ctxMarkerKey{}) }
 
 type qframe struct {
-	b     []byte
-	ready bool
-	seq   int64 // emit event seq
+	b       []byte
+	ready   bool
+	readyAt time.Duration // virtual arrival time (latency)
+	seq     int64         // emit event seq
 }
 
 type pipe struct {
@@ -77,6 +78,7 @@ type pipe struct {
 	emitted    int
 	delivered  int
 	held       bool // fault: nothing is delivered from this direction for now
+	pumping    bool // a latency pump goroutine is running
 }
 
 func (p *pipe) key() unsafe.Pointer { return unsafe.Pointer(p) }
@@ -318,25 +320,52 @@ func (c *Conn) full(p *pipe, n int) bool {
 func (c *Conn) enqueue(p *pipe, dir int, b []byte, m proto.Message) {
 	lat := c.latency(dir)
 	seq := c.tapEmit(dir, b, m)
-	p.q = append(p.q, qframe{b: b, ready: lat == 0, seq: seq})
+	f := qframe{b: b, ready: lat == 0, seq: seq}
+	if lat > 0 {
+		f.readyAt = simrt.VirtualNow() + lat
+	}
+	p.q = append(p.q, f)
 	p.qbytes += len(b)
 	p.emitted++
 	c.Car.W.onFrame()
-	if lat > 0 {
-		simrt.GoDaemon("carrier.latency", func() {
-			simrt.Sleep(lat)
+	if lat == 0 {
+		simrt.Wake(p.key())
+		return
+	}
+	// one latency pump per direction at a time: it marks frames ready as their
+	// virtual arrival time comes and exits when none is pending
+	if p.pumping {
+		return
+	}
+	p.pumping = true
+	simrt.GoDaemon("carrier.latency", func() {
+		for {
 			p.mu.Lock()
+			now := simrt.VirtualNow()
+			var next time.Duration = -1
 			for i := range p.q {
-				if p.q[i].seq == seq {
-					p.q[i].ready = true
+				if p.q[i].ready {
+					continue
 				}
+				if p.q[i].readyAt <= now {
+					p.q[i].ready = true
+					continue
+				}
+				if next < 0 || p.q[i].readyAt < next {
+					next = p.q[i].readyAt
+				}
+			}
+			if next < 0 {
+				p.pumping = false
+				p.mu.Unlock()
+				simrt.Wake(p.key())
+				return
 			}
 			p.mu.Unlock()
 			simrt.Wake(p.key())
-		})
-	} else {
-		simrt.Wake(p.key())
-	}
+			simrt.Sleep(next - now)
+		}
+	})
 }
 
 func (c *Conn) buggify() {
